@@ -178,7 +178,8 @@ CLAIMED = {
                  'exact adjoint for every letter order, repeated letters, ellipsis placement, sizes and data; the only failure '
                  'mode is ValueError and it occurs exactly when no such rewriting exists.  The string functions are compared '
                  'with the implementation on all 2-operand strings over a 3-letter alphabet with ellipsis placements (seeded '
-                 'sample in quick, exhaustive in thorough); dense(op.T) = dense(op).T and op.mv = numpy.einsum are the oracles.'),
+                 'sample in quick, exhaustive in thorough); dense(op.T) = dense(op).T and op.mv = numpy.einsum are the oracles.'
+                 ' EXECUTABLE KERNEL (FuraxModel/EinsumEval.lean, Props/C14Eval.lean): einsum2 is a total two-operand einsum compiled into the driver; its pairing with a cotangent is the form Phi (einsum2_pairing), so the rewritten subscripts give the adjoint of the EXECUTABLE kernel for all fitting data, letters only and with an ellipsis (terms_adjoint, terms_adjoint_ellipsis), it is linear for every string, and every rejection is ValueError; op.mv is compared with the kernel (JAX dialect) entry by entry on every evaluated string, and the operator is exercised on pytrees (shared blocks / one block array per leaf).'),
         'note': ('Trusted: Lean kernel + Mathlib Finset sums + standard axioms; A1 (jnp.einsum = numpy.einsum, re-checked); the '
                  'identification of jnp.einsum with the bilinear form Phi (an ellipsis is a block of further letters).'),
         'technique': 'Lean 4 proof (assignment bijection under a letter swap) + differential correspondence of the string rewriting',
@@ -285,7 +286,8 @@ CLAIMED = {
                  'compared with the real ones on random expressions over float32/float64/mixed pytrees in both 64-bit modes; '
                  'jax.eval_shape(mv) = out_structure(), sizes, promoted dtypes, transposes and reduced operators are checked on '
                  'the implementation.'
-                 ' CLOSED: reduce_keeps_structures_closed, declared_sizes_honest (every structurally well-formed operator returns as many entries as out_structure() declares, whatever the input).'),
+                 ' CLOSED: reduce_keeps_structures_closed, declared_sizes_honest (every structurally well-formed operator returns as many entries as out_structure() declares, whatever the input).'
+                 ' Stream params: operators whose parameter arrays have more or other dimensions than the leaves (rotation angles, Toeplitz band batches, einsum blocks broadcast against the input) — whatever the constructor accepts must declare the structures mv and the transpose really have (findings F17-F19, repaired).'),
         'note': ('Trusted: Lean kernel + standard axioms; jax.eval_shape as the reference for what mv returns; leaves report '
                  'their declared structures to the model (their honesty is the oracle part). Claimed for parameters no wider '
                  'than the data dtype, as the property states.'),
